@@ -29,6 +29,11 @@ class ConclusionSelector(LogicalOperator, ABC):
     output does not carry, so it always evaluates its operands.
     """
 
+    def _reset_only_my_cache_(self) -> None:
+        super()._reset_only_my_cache_()
+        # what was concluded belongs to one evaluation, the next evaluation concludes anew.
+        self.concluded_before = {True: SeenSet(), False: SeenSet()}
+
     def update_conclusion(self, output: Dict[int, HashedValue], conclusions: typing.Set[Conclusion]) -> None:
         if not conclusions:
             return
